@@ -7,6 +7,9 @@ DA == <<11, 12, 13>>
 GB == << G(0, 5, 1, TRUE), G(0, 2, 1, TRUE), G(2, 3, 2, TRUE) >>
 GC == << G(0, 5, 1, TRUE), G(0, 2, 1, TRUE), G(2, 3, 2, FALSE) >>
 DB == <<21, 22, 31, 32, 33>>
+\* layout D: as B, but the communication group sits at sub-index 4 and sub-index 3 does not exist (a gap below the highest sub-index)
+GD == << G(0, 5, 1, TRUE), G(0, 2, 1, TRUE), G(0, 0, 0, FALSE), G(2, 3, 2, TRUE) >>
+LD == {<<"save", k>> : k \in {1, 3, 4}} \cup {<<"load", k>> : k \in {1, 2, 3, 4}} \cup {<<"poke", 0, 77>>, <<"poke", 4, 99>>, <<"restart">>, <<"resetcom">>}
 LA == {<<"save", 1>>, <<"load", 1>>, <<"badsig", 4112, 1, <<115, 97, 118, 100>>>>, <<"badsig", 4113, 1, <<115, 97, 118, 101>>>>, <<"poke", 0, 77>>, <<"poke", 2, 88>>, <<"poke", 0, 78>>,
        <<"restart">>, <<"resetnode">>, <<"resetcom">>, <<"fault", 1, 1>>, <<"fault", 2, 2>>, <<"geterr">>}
 LB == {<<"save", k>> : k \in 1..3} \cup {<<"load", k>> : k \in 1..3} \cup {<<"badsig", 4112, 2, <<0, 0, 0, 0>>>>, <<"badsig", 4113, 1, <<108, 111, 97, 101>>>>}
